@@ -8,7 +8,10 @@ FAIL_MODES = ["exit 1", "exit 2", "exit 255", "exit 127", "signal 15", "signal 1
 
 
 def downstream_cmds(desc, cmdname):
-    """Names of commands that directly or transitively consume an output of cmdname."""
+    """Names of commands that directly or transitively consume an output of cmdname.
+    The virtual outputs of PHONY commands are ordering-only by documented design (PhonyCommand::getResultForOutput: "to avoid them
+    incorrectly propagating failed/cancelled states onwards to downstream commands when they are being used only for ordering
+    purposes"), so the cone stops at a phony command: what is behind its virtual outputs does not consume the failed command's outputs."""
     res, work = set(), list(desc.cmds[cmdname].outputs)
     seen = set(work)
     while work:
@@ -16,6 +19,8 @@ def downstream_cmds(desc, cmdname):
         for c in desc.cmds.values():
             if n in c.inputs and c.name not in res:
                 res.add(c.name)
+                if c.tool == "phony":
+                    continue
                 for o in c.outputs:
                     if o not in seen:
                         seen.add(o); work.append(o)
@@ -56,11 +61,12 @@ def history(args):
     res = dict(viol=[], builds=0, failing_builds=0, retry_builds=0, repair_builds=0, failures_injected=0, commands_run=0, modes={}, nontrivial=False, shape="", sample=None, inconclusive=[])
     log = []
     try:
-        desc = bslib.gen_desc(rnd, ncmds=rnd.randint(4, 10), tools=("shell", "shell", "shell", "shell", "shell", "phony"))
+        desc = bslib.gen_desc(rnd, ncmds=rnd.randint(4, 10), tools=("shell", "shell", "shell", "shell", "shell", "phony"),
+                              virtual_out_p=0.45, virtual_in_p=0.55)
         bslib.populate_sources(sb, desc, rnd)
         sb.write_desc(desc)
         use_driver = rnd.random() < 0.5
-        keep_going = use_driver and rnd.random() < 0.6
+        keep_going = use_driver and rnd.random() < 0.75
 
         def do_build(jobs):
             if use_driver:
